@@ -5,7 +5,7 @@ import math
 
 import numpy as np
 
-from .. import par, sim
+from .. import own, par, sim
 from ..ref import cphot_ref as CR
 from ..zsteps_shim import build as zb
 
@@ -327,6 +327,44 @@ def judge_map_history(seq):
     return out
 
 
+CALLBACKS = ["omitted", "none", "below", "mid", "overcast"]
+
+
+def _batch_call(obj, how, which):
+    """the batch entry point with the cloud callback given as `how`"""
+    b = np.radians(np.array([5.0, 20.0, 3.0]))
+    a = np.array([2.0, 8.0, 0.5])
+    E = np.array([1.0, 10.0, 0.1])
+    la = np.array([0.1, 0.2, -0.3])
+    lo = np.array([0.3, -1.0, 2.0])
+    cf = {"below": lambda x, y: np.float64(-1.0), "mid": lambda x, y: np.float64(6.0), "overcast": lambda x, y: np.float64(100.0)}
+    with sim.owned(0, "synchronous"), own.quiet(), np.errstate(all="ignore"):
+        if which == "kernel":
+            r = obj(b, a, E, la, lo) if how == "omitted" else obj(b, a, E, la, lo, None if how == "none" else cf[how])
+        else:
+            args = (b, a, E, la, lo)
+            r = obj(*args) if how == "omitted" else obj(*args, cloudf=None if how == "none" else cf[how])
+    return tuple(np.asarray(x, dtype=np.float64).tobytes() for x in r)
+
+
+def judge_callback_history(which, seq):
+    """ONE kernel (or ONE optical stage) called batch after batch with the cloud callback omitted, None, or one of three
+    callbacks: every batch returns what a fresh object returns for that callback -- an omitted callback is the cloud-free
+    sky, whatever an earlier batch was given. Two passes (fresh expectations first, then the uninterrupted history)."""
+    from nuspacesim.simulation.eas_optical.cphotang import CphotAng
+    from nuspacesim.simulation.eas_optical.eas import EAS
+
+    mk = (lambda: CphotAng(525.0)) if which == "kernel" else (lambda: EAS(sim.make_config()))
+    want = [_batch_call(mk(), CALLBACKS[i], which) for i in seq]
+    o = mk()
+    for k, i in enumerate(seq):
+        got = _batch_call(o, CALLBACKS[i], which)
+        if got != want[k]:
+            g, w = (np.frombuffer(x[0], dtype=np.float64)[:3].tolist() for x in (got, want[k]))
+            return [("callback_of_this_batch_only", f"batch {k} of {[CALLBACKS[j] for j in seq]} on one {which}: {w}", g)]
+    return []
+
+
 def judge_forms(f, month=7):
     """input forms for the pressure-map lookup: site latitude / longitude as narrower arrays"""
     from nuspacesim.simulation.atmosphere.clouds import CloudTopHeight
@@ -390,6 +428,14 @@ def run(ctx):
         ctx.tick(6 * len(seq), ("map_history", tuple(seq)))
         for c, e, o in judge_map_history(seq):
             ctx.violation(c, {"kind": "map_history", "seq": seq}, e, o)
+    nh = 0
+    for which in ("kernel", "stage"):
+        for sq in itertools.product(range(len(CALLBACKS)), repeat=2):
+            nh += 1
+            ctx.tick(6, ("callback_history", which) + tuple(sq))
+            for c, e, o in judge_callback_history(which, sq):
+                ctx.violation(c, {"kind": "callback_history", "which": which, "seq": list(sq)}, e, o)
+    ctx.cov["callback_histories"] = nh
     ctx.cov["months"] = months
     ctx.sample({"kind": "map", "month": 7, "site_deg": [12.5, -133.4], "input": "radians, longitude in [-pi, pi]"})
 
@@ -400,6 +446,8 @@ def replay(case):
 
         return pipeline.replay(case)
     k = case["kind"]
+    if k == "callback_history":
+        return judge_callback_history(case["which"], tuple(case["seq"]))
     if k == "kernel":
         v, _, _ = judge_event(tuple(case["ev"]))
         return [(c, e, o) for c, ct, e, o in v if ct == case["ct"] or (math.isnan(ct) and math.isnan(case["ct"]))]
